@@ -156,7 +156,8 @@ Theorem gates_as_modelled :
   G.receipt_gate_before_actions = true /\
   G.processed_check_before_verify = true /\
   G.processed_set_keyed_by_tx_hash = true /\
-  G.sig_prefix_loop = "i := len(msg.GetSignData()); i > 0; i--"%string.
+  G.sig_prefix_loop = "i := len(msg.GetSignData()); i > 0; i--"%string /\
+  G.relay_success_means = "winner is a transaction proof"%string.
 Proof. exact AttestSym.gates_as_modelled. Qed.
 
 Print Assumptions success_effects_only_if_calldata_matches_and_receipt_ok.
